@@ -48,7 +48,10 @@ def patterns(rng, tier):
     pats = []
     # including sets in which the larger count does NOT belong to the longer period
     lim_sets = [[(3, 1)], [(1, 1)], [(5, 2)], [(2, 1), (5, 3)], [(4, 1), (6, 2), (9, 3)], [(10, 1)], [(20, 2)], [(2, 2), (3, 3)],
-                [(5, 1), (2, 3)], [(6, 1), (4, 2), (3, 3)], [(3, 2), (2, 3)]]
+                [(5, 1), (2, 3)], [(6, 1), (4, 2), (3, 3)], [(3, 2), (2, 3)],
+                # three limits of which the SHORTEST period is the tightest, so that it is the one deciding while the log still holds
+                # entries older than the middle period
+                [(1, 1), (4, 2), (8, 3)], [(12, 3), (2, 1), (6, 2)]]
     if tier == "thorough":
         lim_sets += [[(1, 10)], [(3, 5), (7, 10)], [(20, 10)], [(5, 4), (8, 7), (12, 10)], [(15, 3)], [(2, 6)], [(10, 2), (3, 10)], [(8, 3), (5, 6), (2, 9)]]
     for ls in lim_sets:
